@@ -50,6 +50,7 @@ NOTES = {
  "C05-r2-1": "missed by C05 (no ECS query below an RFC 8020 cut in its families), caught by C19 (EcsDenial.tla: a wire-born ECS query must not consume a shared cut)",
  "C01-r2-2": "missed by C01 and C04, caught by C06 (ComposedAD: AD only if every piece of a composed reply was validated, wire chase)",
  "C02-r2-1": "missed at first (one ordinary data type, so neighbouring bitmaps never differed); caught after TXT joined the type universe and zone wildtypes (wildcard {A}, covering owner {TXT}) was added",
+ "C02-r3-1": "missed at first (both cache models had an atomic lookup: no admission ever fell between a lookup's snapshot and its answer); caught by DenialProof.tla Race = TRUE: the real lookup held after the snapshot capture (index clock seam / production BeginNSEC3Hash), the asked type or name created on the live zone, another client's validated answer makes the index tombstone the ring, the released lookup must give up",
  "C02-r2-2": "missed at first; caught by the HashMemo tier (two validations of one request tree want the same NSEC3 digest, the first parked inside BeginNSEC3Hash: the second must wait, not read an empty digest)",
  "C07-r2-1": "missed at first; caught by the DelegAssembly tier (query B answered through the provisional server set while query A is parked resolving a glue-less NS host)",
  "C07-r2-2": "missed at first (one stray datagram per exchange); caught after the pre-datagram kind flood (twelve wrong-ID datagrams echoing the right question)",
